@@ -652,7 +652,19 @@ func mavenTraits(w *World, name string) []string {
 		case files > 1:
 			f = append(f, "twice-declared-across-poms")
 		default:
-			f = append(f, "twice-declared-same-version")
+			// same version in one POM.  With a soft version the library is right (the writer
+			// updates the <dependencies> declaration, which decides).  With a RANGE the
+			// un-updated <dependencyManagement> range keeps constraining the package: the
+			// single reported update reaches only the first declaration (R-F3 family).
+			rng := false
+			for v := range versions {
+				rng = strings.HasPrefix(v, "[") || strings.HasPrefix(v, "(")
+			}
+			if rng {
+				f = append(f, "twice-declared-same-range")
+			} else {
+				f = append(f, "twice-declared-same-version")
+			}
 		}
 	}
 	return f
